@@ -49,6 +49,7 @@ type vconn struct {
 	// noDeadlines: a transport without deadline support (a tunnel, a channel-backed conn): every SetDeadline
 	// call answers with an error and changes nothing
 	noDeadlines bool
+	closeFails  bool
 }
 
 var errNoDeadlines = errors.New("vconn: deadlines are not supported by this transport")
@@ -266,6 +267,11 @@ func (c *vconn) Close() error {
 	c.closed = true
 	c.cond.Broadcast()
 	c.mu.Unlock()
+	if c.closeFails {
+		// (a transport whose Close reports something: a TLS connection after a timed-out write, a buffering layer that
+		// flushes on Close, a reset peer. It is closed all the same.)
+		return errors.New("vconn: close reported a flush failure")
+	}
 	return nil
 }
 
